@@ -168,6 +168,8 @@ structure OSt where
   o : Origin := {}
   up : Bool := true
   prevCache : List String := []     -- impl: blobs cached before this op
+  tags : List (String × Nat) := []  -- tags the remote build-index was asked to store, with their blob
+  parked : List (String × Nat) := [] -- executions whose upload to the remote origin is in flight (tag, blob)
 
 def blob? (t : String) : Option Nat :=
   match t.toList with
@@ -179,12 +181,46 @@ def ssort (xs : List String) : List String := (xs.toArray.qsort (· < ·)).toLis
 def odump (o : Origin) : List String :=
   ["c=" ++ listTok (ssort (o.cache.map fun d => s!"b{d}")), "r=" ++ listTok (ssort (o.remote.map fun d => s!"b{d}"))]
 
+/-- the order property at the remote build-index, on the implementation's record: whenever it is asked to
+store a tag, the remote origin cluster holds the tag's blob at that moment -/
+def tagMonitor (impl : List String) : List String :=
+  (list? ((kv? impl "tags").getD "-")).filterMap fun t =>
+    match t.splitOn ":" with
+    | [tag, b, has] => if has = "1" ∨ has = "true" then none else
+        some s!"side=impl key=tag-stored-before-dependency-present the remote build-index was asked to store {tag} while the remote origin cluster did not hold its blob {b}"
+    | _ => none
+
 def ostep (s : OSt) (kind : String) (args impl : List String) : Option (OSt × StepOut) :=
   if kind ≠ "op" then none else
   let cachedNow := list? ((kv? impl "c").getD "-")
+  let xdump (tags parked : List (String × Nat)) : List String :=
+    ["tags=" ++ listTok (ssort (tags.map fun (t, b) => s!"{t}:b{b}:1")), "p=" ++ listTok (parked.map (·.1))]
+  let finX (o : Origin) (tags parked : List (String × Nat)) (obs : List String) (br : String) : Option (OSt × StepOut) :=
+    some ({ s with o, prevCache := cachedNow, tags, parked },
+          { obs := obs ++ odump o ++ xdump tags parked, branch := br, propfails := tagMonitor impl })
   let fin (o : Origin) (up : Bool) (obs : List String) (br : String) (pf : List String := []) : Option (OSt × StepOut) :=
-    some ({ o, up, prevCache := cachedNow }, { obs := obs ++ odump o, branch := br, propfails := pf })
+    some ({ s with o, up, prevCache := cachedNow }, { obs := obs ++ odump o ++ xdump s.tags s.parked, branch := br, propfails := pf ++ tagMonitor impl })
+  let addRemote (o : Origin) (b : Nat) : Origin := { o with remote := if b ∈ o.remote then o.remote else o.remote ++ [b] }
   match args with
+  | [x, tt, bt] => do
+    if x ≠ "exec" ∧ x ≠ "execb" then none
+    let b ← blob? bt
+    if b ∉ s.o.cache then finX s.o s.tags s.parked ["uncached"] "x.uncached" else
+    if (x = "exec" ∧ s.parked ≠ []) ∨ s.parked.any (·.1 = tt) then finX s.o s.tags s.parked ["busy"] "x.busy" else
+    if x = "exec" then
+      -- replicate the blob (the upload runs to its end), then the tag is PUT
+      if s.up then finX (addRemote s.o b) (s.tags ++ [(tt, b)]) s.parked ["ok"] "x.exec.ok"
+      else finX s.o s.tags s.parked ["err"] "x.exec.remote-down"
+    else
+      finX s.o s.tags (s.parked ++ [(tt, b)]) ["paused"]
+        (if s.parked.any (·.2 = b) then "overlapping-replication-of-shared-blob" else "x.execb.paused")
+  | ["grel", oc] =>
+    if oc ≠ "ok" ∧ oc ≠ "fail" then none else
+    let ok := oc = "ok"
+    let o' := if ok then s.parked.foldl (fun o p => addRemote o p.2) s.o else s.o
+    let tags' := if ok then s.tags ++ s.parked else s.tags
+    finX o' tags' [] ["res=" ++ listTok (s.parked.map fun p => s!"{p.1}:{if ok then "ok" else "err"}")]
+      (if s.parked = [] then "x.grel.none" else if ok then "x.grel.ok" else "x.grel.fail")
   | ["fetch", bt] => do
     let b ← blob? bt
     fin { s.o with cache := if b ∈ s.o.cache then s.o.cache else s.o.cache ++ [b] } s.up ["ok"] "o.fetch"
@@ -195,6 +231,7 @@ def ostep (s : OSt) (kind : String) (args impl : List String) : Option (OSt × S
   | ["rup"] => fin s.o true ["ok"] "o.rup"
   | ["rep", bt] => do
     let b ← blob? bt
+    if s.parked ≠ [] then fin s.o s.up ["busy"] "o.rep.busy" else
     let (o', r) := replicateToRemote s.o b s.up
     let res := impl.headD ""
     let rem := list? ((kv? impl "r").getD "-")
